@@ -41,6 +41,7 @@ in place between calls (next call vs the same call on a deep copy / on fresh obj
 instance); X - judged: -0.0, denormals, tiny values, fractional / zero weights; observation-only (POLICY_X: outside every
 property): inf / NaN entries and finite values >= 2^53 (1e308 coordinates whose costs overflow, +-2^60). 
 """
+import inspect as _inspect
 import copy as _copy
 import json
 import math
@@ -1292,7 +1293,10 @@ def _run_solve(case, prebuilt=None):
     def wrap(name):
         orig = origs[name]
 
-        def w(st, rng, *args):
+        def w(st, rng, *args, **kwargs):
+            if kwargs:  # the solver may bind operator parameters by keyword (partial(random_removal, degree=0.1)): same call
+                ba = _inspect.signature(orig).bind(st, rng, *args, **kwargs)
+                args = tuple(ba.args[2:])
             if _Sink.depth > 0:  # sync_removal -> random_removal, sync_aware_insertion -> regret_insertion
                 return orig(st, rng, *args)
             _Sink.depth += 1
